@@ -57,3 +57,8 @@ def sessions(text, tables):
             raise TraceShapeError("Parse call without Return")
         done.append(s["calls"] + [dict(tok=-1, fb=[], rules=[], out="open", ret=[], shifts=[])])
     return done
+
+
+def own_trace(text, prefix="parser >>"):
+    """the lines a parser wrote to stderr through its own <Name>Trace(stderr, prefix) call, prefix removed"""
+    return "\n".join(ln[len(prefix):] for ln in text.split("\n") if ln.startswith(prefix))
